@@ -29,7 +29,12 @@ def run(ctx: Ctx) -> Result:
         timeout = rng.choice([0, 1, 30, 60, 61, 3600])
         flags = rng.choice(['00', '00', '01', '03', '80', '40', '%02x' % (1 << rng.randrange(8)), '%02x' % rng.randrange(256)])
         sf = {'sigfield1': V.rbytes(rng, 6), 'sigfield2': V.rbytes(rng, 9)}
-        tw = V.rbytes(rng, 32); twc = bytes(tw[:31]) + bytes([tw[31] & 0x7f]); Tp = nb.crypto_scalarmult_ed25519_base_noclamp(twc)
+        tw = V.rbytes(rng, 32)
+        if it % 9 in (4, 7):
+            # degenerate but legal: the tweak scalar is the receiver's (or the refund key's) own secret scalar, so T equals that key
+            h_ = bytearray(hashlib.sha512(rs if it % 9 == 4 else fs).digest()[:32]); h_[0] &= 248; h_[31] &= 127; h_[31] |= 64
+            tw = bytes(h_)
+        twc = bytes(tw[:31]) + bytes([tw[31] & 0x7f]); Tp = nb.crypto_scalarmult_ed25519_base_noclamp(twc)
         deadline = B.now + timeout
         inp = {'receiver_seed': rs.hex(), 'refund_seed': fs.hex(), 'preimage': pre.hex(), 'timeout': timeout, 'flags': flags}
         res.note_case((rs, fs, pre, hs, timeout, flags))
